@@ -221,6 +221,10 @@ func RoundKeep(p *load.Program, name func(*ssa.Function) string, overlay map[str
 			res.Skipped = append(res.Skipped, cd.qn+": never called")
 			continue
 		}
+		if labelled[cd.obj] && len(sites) > 1 {
+			res.Skipped = append(res.Skipped, cd.qn+": labels and more than one call site")
+			continue
+		}
 		// build all replacements first; commit only if every site works and nothing overlaps
 		var pending []struct {
 			file string
@@ -570,6 +574,9 @@ func lowerTaglessSwitch(sw *ast.SwitchStmt, text func(ast.Node) string) (string,
 	return b.String(), true
 }
 
+// labelled records the functions whose body contains labels: they may be inlined at one call site only.
+var labelled = map[*types.Func]bool{}
+
 // calleeUnsafe returns why the function must not be inlined ("" if it may).
 func calleeUnsafe(fd *ast.FuncDecl, obj *types.Func, pk *packages.Package, p *load.Program) string {
 	if fd.Type.TypeParams != nil {
@@ -602,6 +609,12 @@ func calleeUnsafe(fd *ast.FuncDecl, obj *types.Func, pk *packages.Package, p *lo
 	}
 	why := ""
 	depth := 0
+	hasLabels := false
+	defer func() {
+		if hasLabels {
+			labelled[obj] = true
+		}
+	}()
 	ast.Inspect(fd.Body, func(n ast.Node) bool {
 		switch x := n.(type) {
 		case *ast.FuncLit:
@@ -632,8 +645,9 @@ func calleeUnsafe(fd *ast.FuncDecl, obj *types.Func, pk *packages.Package, p *lo
 				why = "goto"
 			}
 		case *ast.LabeledStmt:
-			// labels would be duplicated when inlined at several sites
-			why = "labels"
+			// labels would be duplicated when inlined at several sites (checked by the caller: a single
+			// call site is fine, the generated label names are unique)
+			hasLabels = true
 		}
 		return true
 	})
